@@ -2,15 +2,29 @@
    backup started is listed / restored exactly as before, whatever that backup (complete,
    failed, or killed at any point) did.  Also C14 (a present block is never rewritten).
 
-   1. ABSTRACTION.  [view a] is the pure listing view (a [Stitch.arch entry]) of a storage
-      state; [lview pre a] is the same thing computed the way the reader sees it (through
-      directory listings).  The stitched reader program ([snext] run to completion) computes
-      exactly the pure [stitch_keep] of the view.
-   2. FRAME.  A backup never touches anything in or below a band that already exists.
-   3. STABILITY of listing and restore of an existing band across a later backup.
-   4. C14. *)
+   0.  [evals]: fault-free evaluation of reading programs.
+   1.  ABSTRACTION.  [view a] is the pure listing view (a [Stitch.arch entry]) of a storage
+       state; [lview pre a] is the same thing computed the way the reader sees it (through
+       directory listings); [lview_eq_view] on well-formed states ([WFidx]).
+   2-4. REFINEMENT.  The stitched reader program ([snext] run to completion, hence
+       [list_prog (Specified b)]) computes exactly the pure [stitch_keep] of the view
+       ([snext_refines], [list_refines], [list_complete_band]).
+   5.  FRAME.  A backup never touches anything in or below a band that already exists:
+       [Frame b a0 a] holds at every state of every run ([backup_frame], [backup_same_band]).
+   6.  STABILITY of listing (any existing band, also under read faults: [listing_stable])
+       and restore ([restore_char], [restore_stable]) across a later backup; the statements
+       for complete bands ([complete_band_listing_stable], [complete_band_restore_stable]).
+   7.  [latest_closed_is_newest].
+   8.  C14: [backup_never_rewrites_present] (all faults); 8b: [unchanged_tree_no_block_writes]
+       (fault-free; via [snext_spec], the lazy basis reader with the merge's [skip]).
+   9.  Boolean checkers for the hypotheses and examples on [SafeP.SafeExamples] states.
+
+   What is NOT modelled / proved here: the monitor-error count [l_merr]/[r_merr] of a listing
+   is left existential in the refinement theorems (it is nevertheless shown stable, being
+   part of the outcome in [listing_stable]/[restore_stable]); restore stability is for
+   fault-free restores (listing stability holds under read faults too). *)
 From Coq Require Import Lia Sorted Permutation.
-From CV Require Import Base.Str Base.StrP Base.Order Apath ApathP Entry Stitch StitchP Tree TreeP Codec Store
+From CV Require Import Base.Str Base.StrP Base.Order Apath ApathP Entry Stitch StitchInst StitchP Tree TreeP Codec CodecP Store
   StitchProg Backup Ops Delete Read SafeP Inv RefIntP.
 Local Open Scope N_scope.
 
@@ -1922,6 +1936,700 @@ Section NeverRewrites.
 End NeverRewrites.
 
 (* ------------------------------------------------------------------------- *)
+(** * 8b. C14, second half: backing up an unchanged tree writes no block      *)
+(* ------------------------------------------------------------------------- *)
+
+Section Wpn.
+  Variable pre : bytes -> N.
+  Variable Pre : arch -> op -> Prop.
+
+  (* the fault-free weakest precondition *)
+  Fixpoint wpn {R} (Q : R -> arch -> Prop) (p : prog R) (a : arch) : Prop :=
+    match p with
+    | Ret r => Q r a
+    | Panic => True
+    | Do o k => Pre a o /\ wpn Q (k (snd (exec_ok pre a o))) (fst (exec_ok pre a o))
+    end.
+
+  Lemma wpn_bind {A B} (Q : A -> arch -> Prop) (Q' : B -> arch -> Prop) (p : prog A) (g : A -> prog B) :
+    (forall r a, Q r a -> wpn Q' (g r) a) -> forall a, wpn Q p a -> wpn Q' (bind p g) a.
+  Proof.
+    intros Hg. induction p as [r|o k IH|]; intros a H; cbn [wpn bind] in *; auto.
+    destruct H as [H1 H2]. split; [exact H1|]. apply IH. exact H2.
+  Qed.
+
+  Lemma wpn_sound {R} (Q : R -> arch -> Prop) (p : prog R) : forall a i o rep,
+    wpn Q p a ->
+    nth_error (fst (fst (run pre p a []))) i = Some (o, rep) ->
+    exists ab, state_before pre p a [] i = Some ab /\ Pre ab o.
+  Proof.
+    induction p as [r|o k IH|]; intros a i o' rep H Hi; try (cbn in Hi; destruct i; discriminate).
+    cbn [wpn] in H. destruct H as [H1 H2]. destruct i as [|i].
+    - pose proof (trace_0 pre _ _ _ _ _ Hi) as E. inversion E; subst. exists a. split; [reflexivity | exact H1].
+    - destruct (state_before_S pre _ _ _ _ _ _ Hi) as [Hi' Hs]. rewrite Hs. cbn [hdf exec] in *.
+      eapply IH; [exact H2 | exact Hi'].
+  Qed.
+
+  Hypothesis PreRead : forall a o, reads_only o -> Pre a o.
+
+  (* a reading program: the state does not change, the result is that of [run] *)
+  Lemma wpn_reads_run {R} (Q : R -> arch -> Prop) (p : prog R) a :
+    emits_only reads_only p -> (forall r, snd (run pre p a []) = Done r -> Q r a) -> wpn Q p a.
+  Proof.
+    intros H. induction H as [r| |o k Ho _ IH]; intros HQ; cbn [wpn]; [apply HQ; reflexivity | exact I|].
+    split; [apply PreRead; exact Ho|]. rewrite (exec_ok_read_same pre a o Ho). apply IH.
+    intros r Hr. apply HQ. rewrite run_Do. cbn [hdf tl exec snd]. rewrite (exec_ok_read_same pre a o Ho). exact Hr.
+  Qed.
+End Wpn.
+
+Definition opt_list {A} (o : option A) : list A := match o with Some x => [x] | None => [] end.
+Definition asorted (l : list str) : Prop := StronglySorted (fun x y => apath_cmp x y = Lt) l.
+
+(* content_heuristically_unchanged (Backup.unchanged ignores its writer-state argument) *)
+Definition same_file (s : sentry) (e : entry) : bool :=
+  kind_eqb (e_kind e) (s_kind s) && Z.eqb (e_ts e) (s_mtime s) && N.eqb (e_size e) (s_size s).
+
+Section LazyReader.
+  Variable pre : bytes -> N.
+  Variables (a0 : arch) (b : N).
+  Hypothesis WF : WFidx a0.
+  Hypothesis Hcomp : complete a0 b.
+  Variable skip : entry -> bool.
+
+  Notation evals := (evals pre a0).
+  Notation n := (N.to_nat b).
+
+  Definition rem_hunks (hs : list N) : list entry := hunks_entries entry (map (hunk_content a0 b) hs).
+
+  (* what the basis reader still has to yield *)
+  Definition rem (st : sstate) : list entry :=
+    match st with
+    | SBefore _ => band_entries a0 b
+    | SInBand _ hs buf _ => buf ++ rem_hunks hs
+    | _ => []
+    end.
+
+  (* the states the basis reader of a complete band [b] goes through *)
+  Definition SV (st : sstate) : Prop :=
+    match st with
+    | SDone => True
+    | SBefore m => m = n
+    | SInBand m hs buf after => m = n /\ after = None /\ forall h, In h hs -> get a0 (PHunk b h) <> None
+    | SAfter _ => False
+    end.
+  Definition not_before (st : sstate) : Prop := match st with SBefore _ => False | _ => True end.
+
+  Lemma scan_buf_spec buf : forall acc acc' o,
+    scan_buf keep_all skip buf acc = (acc', o) ->
+    exists pr, acc' = acc ++ pr /\ forallb skip pr = true
+               /\ match o with Some (e, buf') => buf = pr ++ e :: buf' /\ skip e = false | None => buf = pr end.
+  Proof.
+    induction buf as [|e buf IH]; intros acc acc' o E; cbn [scan_buf keep_all] in E.
+    - inversion E; subst. exists []. rewrite app_nil_r. auto.
+    - destruct (skip e) eqn:Se.
+      + destruct (IH _ _ _ E) as [pr [-> [Hs Ho]]]. exists (e :: pr). rewrite <- app_assoc. cbn [app forallb].
+        rewrite Se, Hs. split; [reflexivity|]. split; [reflexivity|].
+        destruct o as [[e' buf']|]; [destruct Ho as [-> Hs']; auto | subst; reflexivity].
+      + inversion E; subst. exists []. rewrite app_nil_r. auto.
+  Qed.
+
+  Lemma rem_hunks_cons h hs :
+    rem_hunks (h :: hs) = match hunk_content a0 b h with Some es => es | None => [] end ++ rem_hunks hs.
+  Proof. unfold rem_hunks, hunks_entries. cbn [map concat]. reflexivity. Qed.
+
+  Lemma nid : N.of_nat n = b.
+  Proof. apply N2Nat.id. Qed.
+
+  Lemma closed_after blw last acc merr :
+    evals (after_band n blw last acc merr) (Ret (acc, None, SDone, last, merr)).
+  Proof.
+    unfold after_band. apply ev_read; [exact I|]. rewrite reply_meta, nid.
+    destruct Hcomp as [_ Hc]. unfold tail_closed in Hc.
+    destruct (get a0 (PTail b)) as [x|]; [|discriminate]. rewrite Hc. apply ev_refl.
+  Qed.
+
+  (* the InBand arm with an arbitrary [skip], up to the next entry that is not skipped or
+     to the end of the (closed) band *)
+  Lemma hunks_loop_spec hs : forall last acc merr,
+    (forall h, In h hs -> get a0 (PHunk b h) <> None) ->
+    exists sk na st' last' merr',
+      evals (hunks_loop keep_all skip n hs None last acc merr (after_band n (below keep_all skip n)))
+            (Ret (acc ++ sk, na, st', last', merr'))
+      /\ forallb skip sk = true /\ SV st' /\ not_before st'
+      /\ match na with
+         | Some e => skip e = false /\ rem_hunks hs = sk ++ e :: rem st'
+         | None => st' = SDone /\ rem_hunks hs = sk
+         end.
+  Proof.
+    induction hs as [|h hs IH]; intros last acc merr Hex.
+    - exists [], None, SDone, last, merr. rewrite app_nil_r. cbn [hunks_loop].
+      split; [apply closed_after|]. cbn. auto.
+    - assert (Hex' : forall h', In h' hs -> get a0 (PHunk b h') <> None) by (intros h' Hh'; apply Hex; right; exact Hh').
+      rewrite rem_hunks_cons.
+      destruct (get a0 (PHunk b h)) as [x|] eqn:G; [|exfalso; apply (Hex h); [left; reflexivity | exact G]].
+      assert (Hbad : (forall es, x <> Good (PlHunk es)) ->
+        exists sk na st' last' merr',
+          evals (hunks_loop keep_all skip n (h :: hs) None last acc merr (after_band n (below keep_all skip n)))
+                (Ret (acc ++ sk, na, st', last', merr'))
+          /\ forallb skip sk = true /\ SV st' /\ not_before st'
+          /\ match na with
+             | Some e => skip e = false /\ [] ++ rem_hunks hs = sk ++ e :: rem st'
+             | None => st' = SDone /\ [] ++ rem_hunks hs = sk
+             end).
+      { intros Hx. destruct (IH last acc (merr + 1) Hex') as (sk & na & st' & last' & merr' & E & R).
+        exists sk, na, st', last', merr'. split; [|exact R].
+        eapply evals_trans; [|exact E]. cbn [hunks_loop]. apply ev_read; [exact I|].
+        rewrite reply_read, nid, G. destruct x as [[|hv|t|es|c']| |]; try apply ev_refl.
+        exfalso. apply (Hx es). reflexivity. }
+      unfold hunk_content. rewrite G.
+      destruct x as [[|hv|t|es|c']| |]; try (apply Hbad; intros es' E'; discriminate E').
+      assert (Estep : evals (hunks_loop keep_all skip n (h :: hs) None last acc merr (after_band n (below keep_all skip n)))
+                (match phstep (Some es) None with
+                 | (None, after') => hunks_loop keep_all skip n hs after' last acc merr (after_band n (below keep_all skip n))
+                 | (Some out, after') =>
+                     match scan_buf keep_all skip out acc with
+                     | (acc', Some (e, buf')) => Ret (acc', Some e, SInBand n hs buf' after', pnlast out last, merr)
+                     | (acc', None) => hunks_loop keep_all skip n hs after' (pnlast out last) acc' merr (after_band n (below keep_all skip n))
+                     end
+                 end)).
+      { cbn [hunks_loop]. apply ev_read; [exact I|]. rewrite reply_read, nid, G.
+        destruct (phstep (Some es) None) as [[out|] after']; [|apply ev_refl].
+        destruct (scan_buf keep_all skip out acc) as [acc' [[e buf']|]]; apply ev_refl. }
+      cbn [hunk_step] in Estep. destruct es as [|e0 es].
+      + destruct (IH last acc merr Hex') as (sk & na & st' & last' & merr' & E & R).
+        exists sk, na, st', last', merr'. split; [eapply evals_trans; eassumption | exact R].
+      + destruct (scan_buf keep_all skip (e0 :: es) acc) as [acc' o] eqn:Es.
+        destruct (scan_buf_spec _ _ _ _ Es) as [pr [-> [Hpr Ho]]].
+        destruct o as [[e buf']|].
+        * destruct Ho as [Ebuf Se].
+          exists pr, (Some e), (SInBand n hs buf' None), (pnlast (e0 :: es) last), merr.
+          split; [exact Estep|]. split; [exact Hpr|]. split; [cbn [SV]; auto|]. split; [exact I|].
+          split; [exact Se|]. cbn [rem]. rewrite Ebuf, <- app_assoc. reflexivity.
+        * destruct (IH (pnlast (e0 :: es) last) (acc ++ pr) merr Hex') as (sk & na & st' & last' & merr' & E & Hsk & HV & HN & R).
+          exists (pr ++ sk), na, st', last', merr'. rewrite app_assoc.
+          split; [eapply evals_trans; eassumption|]. split; [rewrite forallb_app, Hpr, Hsk; reflexivity|].
+          split; [exact HV|]. split; [exact HN|]. rewrite Ho.
+          destruct na as [e|]; [destruct R as [Se R]; split; [exact Se|]; rewrite R, app_assoc; reflexivity
+                               | destruct R as [-> R]; split; [reflexivity|]; rewrite R; reflexivity].
+  Qed.
+
+  Lemma band_entries_listed : band_entries a0 b = rem_hunks (listed_hunks pre a0 b).
+  Proof. unfold band_entries, rem_hunks. rewrite (listed_hunks_eq pre a0 WF). reflexivity. Qed.
+
+  (** one call of Stitch::next on the basis, with the caller's [skip] *)
+  Theorem snext_spec st last merr :
+    SV st -> (not_before st \/ last = None) ->
+    exists sk na st' last' merr',
+      evals (snext keep_all skip st last merr) (Ret (sk, na, st', last', merr'))
+      /\ forallb skip sk = true /\ SV st' /\ not_before st'
+      /\ match na with
+         | Some e => skip e = false /\ rem st = sk ++ e :: rem st'
+         | None => st' = SDone /\ rem st = sk
+         end.
+  Proof.
+    intros HV HL. destruct st as [|m|m hs buf after|m]; cbn [SV] in HV; [| | |contradiction].
+    - exists [], None, SDone, last, merr. split; [apply ev_refl|]. cbn. auto.
+    - subst m. destruct HL as [[]| ->]. cbn [snext rem]. rewrite band_entries_listed.
+      destruct Hcomp as [Ho _]. unfold head_opens in Ho.
+      destruct (get a0 (PHead b)) as [x|] eqn:G; [|discriminate].
+      destruct (head_status (RData x)) eqn:Hs; try discriminate.
+      unfold listed_hunks. destruct (has_dir a0 (DIndex b)) eqn:Hi.
+      + destruct (hunks_loop_spec
+                    (flat_map (fun s => hunk_numbers (children_files pre a0 (DHunkSub b s))) (subdir_numbers (children_dirs a0 (DIndex b))))
+                    None []
+                    (let count := match snd (exec_ok pre a0 (OpRead (PTail b))) with RData (Good (PlTail c')) => c' | _ => None end in
+                     let hs := flat_map (fun s => hunk_numbers (children_files pre a0 (DHunkSub b s))) (subdir_numbers (children_dirs a0 (DIndex b))) in
+                     if negb (consecutive hs 0) || match count with Some c' => negb (N.eqb c' (N.of_nat (length hs))) | None => false end
+                     then merr + 1 else merr))
+          as (sk & na & st' & last' & merr' & E & R).
+        { intros h Hh. apply (listed_hunks_exist pre a0 b). unfold listed_hunks. rewrite Hi. exact Hh. }
+        exists sk, na, st', last', merr'. split; [|exact R].
+        unfold open_band. apply ev_read; [exact I|]. rewrite reply_read, nid, G, Hs.
+        apply ev_read; [exact I|]. rewrite reply_list, Hi.
+        eapply evals_trans; [apply list_subdirs_refines; intros s Hs'; apply subdir_listed; exact Hs'|].
+        apply ev_read; [exact I|]. cbn [app]. exact E.
+      + exists [], None, SDone, None, (merr + 1). split; [|cbn; auto].
+        unfold open_band. apply ev_read; [exact I|]. rewrite reply_read, nid, G, Hs.
+        apply ev_read; [exact I|]. rewrite reply_list, Hi. apply closed_after.
+    - destruct HV as (-> & -> & Hex). cbn [snext rem].
+      destruct (scan_buf keep_all skip buf []) as [acc o] eqn:Es.
+      destruct (scan_buf_spec _ _ _ _ Es) as [pr [-> [Hpr Ho]]]. cbn [app].
+      destruct o as [[e buf']|].
+      + destruct Ho as [-> Se]. exists pr, (Some e), (SInBand n hs buf' None), last, merr.
+        split; [apply ev_refl|]. split; [exact Hpr|]. split; [cbn [SV]; auto|]. split; [exact I|].
+        split; [exact Se|]. cbn [rem]. rewrite <- app_assoc. reflexivity.
+      + subst buf. destruct (hunks_loop_spec hs last pr merr Hex) as (sk & na & st' & last' & merr' & E & Hsk & HV' & HN & R).
+        exists (pr ++ sk), na, st', last', merr'. split; [exact E|].
+        split; [rewrite forallb_app, Hpr, Hsk; reflexivity|]. split; [exact HV'|]. split; [exact HN|].
+        destruct na as [e|]; [destruct R as [Se R]; split; [exact Se|]; rewrite R, app_assoc; reflexivity
+                             | destruct R as [-> R]; split; [reflexivity|]; rewrite R; reflexivity].
+  Qed.
+
+  (* every such call reads band [b] only *)
+  Lemma snext_low_SV keep st last merr : SV st -> emits_only (low_op b) (snext keep skip st last merr).
+  Proof.
+    intros HV. assert (Hn : N.of_nat n <= b) by (rewrite nid; lia).
+    destruct st as [|m|m hs buf after|m]; cbn [SV] in HV; [constructor | | |contradiction].
+    - subst m. apply snext_low. exact Hn.
+    - destruct HV as [-> _]. unfold snext. destruct (scan_buf keep skip buf []) as [acc [[e buf']|]]; [constructor|].
+      apply hunks_loop_low; [exact Hn|]. intros l x m'. apply after_band_low; [exact Hn|]. apply below_low. lia.
+  Qed.
+End LazyReader.
+
+Lemma SS_app_r {A} (R : A -> A -> Prop) l1 l2 : StronglySorted R (l1 ++ l2) -> StronglySorted R l2.
+Proof.
+  induction l1 as [|x l1 IH]; cbn [app]; [auto|]. intros H. inversion H; subst. auto.
+Qed.
+
+Lemma meta_from_apath owner s : e_apath (meta_from owner s) = s_apath s.
+Proof. unfold meta_from. destruct (enc_time_floor (s_mtime s)). reflexivity. Qed.
+Lemma meta_from_kind owner s : e_kind (meta_from owner s) = s_kind s.
+Proof. unfold meta_from. destruct (enc_time_floor (s_mtime s)). reflexivity. Qed.
+
+Section Unchanged.
+  Variable pre : bytes -> N.
+  Variable c : cfg.
+  Variables (a0 : arch) (b : N).
+  Hypothesis WF : WFidx a0.
+  Hypothesis Hcomp : complete a0 b.
+
+  Notation B0 := (band_entries a0 b).
+  Notation spath := (fun it : sitem => s_apath (si_e it)).
+  Notation SV := (SV a0 b).
+  Notation rem := (rem a0 b).
+
+  (* a file entry written by this backup carries the addresses the basis recorded *)
+  Definition GoodE (e : entry) : Prop :=
+    e_kind e = KFile -> exists eb, In eb B0 /\ e_apath eb = e_apath e /\ e_addrs e = e_addrs eb.
+
+  Definition okop (o : op) : Prop :=
+    ~ is_block_write o
+    /\ match o with OpWrite (PHunk _ _) (PlHunk es) _ => Forall GoodE es | _ => True end.
+  Definition OkPre (_ : arch) (o : op) : Prop := okop o.
+
+  Lemma OkPre_read a o : reads_only o -> OkPre a o.
+  Proof. destruct o; cbn; try tauto; intros _; split; auto. Qed.
+
+  Notation wpn := (wpn pre OkPre).
+
+  (* the writer state while nothing has to be stored *)
+  Definition WI (a : arch) (w : wst) : Prop :=
+    Frame b a0 a /\ b < w_band w /\ w_queue w = [] /\ w_fin w = [] /\ Forall GoodE (w_entries w)
+    /\ (forall e, In e B0 -> blocks_present w e = true).
+  Definition WIQ {A} (rw : A * wst) (a : arch) : Prop := WI a (snd rw).
+
+  Lemma exec_ok_high_frame a o : high_op b o -> Frame b a0 a -> Frame b a0 (fst (exec_ok pre a o)).
+  Proof. intros Ho FR. apply (exec_high_frame pre b a0 a o NoFault Ho FR). Qed.
+
+  Lemma finish_hunk_wpn w a : WI a w -> wpn WIQ (finish_hunk w) a.
+  Proof.
+    intros HW. pose proof HW as (FR & Hb & Hq & Hf & HG & HB).
+    unfold finish_hunk. destruct (w_entries w) as [|e0 es] eqn:Ee; [exact HW|].
+    assert (Hw : forall a1, Frame b a0 a1 ->
+      wpn WIQ (Do (OpWrite (PHunk (w_band w) (w_seq w)) (PlHunk (sort_entries (e0 :: es))) CreateNew)
+                (fun r => if is_ok r then Ret (true, upd_index w [] (w_seq w + 1) (w_hunks w + 1)) else Ret (false, w))) a1).
+    { intros a1 FR1. cbn [FrameP.wpn]. split.
+      - split; [intros []|]. eapply Permutation_Forall; [apply Permutation_sym, sort_entries_perm | exact HG].
+      - assert (FR2 := exec_ok_high_frame a1 (OpWrite (PHunk (w_band w) (w_seq w)) (PlHunk (sort_entries (e0 :: es))) CreateNew) Hb FR1).
+        destruct (is_ok _); cbn [FrameP.wpn]; unfold WIQ, WI; cbn [snd upd_index w_band w_queue w_fin w_entries];
+          (split; [exact FR2|]); [|rewrite Ee]; repeat split; auto. }
+    destruct (w_seq w mod HUNKS_PER_SUBDIR =? 0); [|apply Hw; exact FR].
+    cbn [FrameP.wpn]. split; [split; [intros []|exact I]|].
+    assert (FR1 := exec_ok_high_frame a (OpMkdir (DHunkSub (w_band w) (w_seq w / HUNKS_PER_SUBDIR))) Hb FR).
+    destruct (is_ok _); [apply Hw; exact FR1|].
+    cbn [FrameP.wpn]. unfold WIQ, WI. cbn [snd]. rewrite Ee. split; [exact FR1|]. repeat split; auto.
+  Qed.
+
+  Lemma flush_group_wpn w a : WI a w -> wpn WIQ (flush_group pre w) a.
+  Proof.
+    intros HW. pose proof HW as (FR & Hb & Hq & Hf & HG & HB).
+    unfold flush_group, comb_flush. rewrite Hq. cbn [bind].
+    apply finish_hunk_wpn. unfold WI. cbn [upd_comb upd_index w_band w_queue w_fin w_entries].
+    rewrite Hf, app_nil_r. split; [exact FR|]. repeat split; auto.
+  Qed.
+
+  Lemma WI_counts a w x y z : WI a w -> WI a (upd_counts w x y z).
+  Proof. intros H. exact H. Qed.
+
+  Lemma WI_push a w e : WI a w -> GoodE e -> WI a (push_entry w e).
+  Proof.
+    intros (FR & Hb & Hq & Hf & HG & HB) He. unfold WI. cbn [push_entry upd_index w_band w_queue w_fin w_entries].
+    split; [exact FR|]. repeat split; auto. apply Forall_app. split; [exact HG | constructor; [exact He | constructor]].
+  Qed.
+
+  Lemma copy_entry_ret w0 basis it :
+    (s_kind (si_e it) = KFile ->
+       exists e, basis = Some e /\ same_file (si_e it) e = true /\ blocks_present w0 e = true
+                 /\ In e B0 /\ e_apath e = s_apath (si_e it)) ->
+    exists w1, copy_entry pre c w0 basis it = Ret (true, w1)
+               /\ (w1 = w0 \/ exists e', w1 = push_entry w0 e' /\ GoodE e').
+  Proof.
+    intros Hfile. unfold copy_entry. destruct (s_kind (si_e it)) eqn:Ek.
+    - destruct (Hfile eq_refl) as (e & -> & Hs & Hbp & Hin & Hap).
+      change (unchanged w0 (si_e it) e) with (same_file (si_e it) e). rewrite Hs, Hbp. cbn [andb].
+      eexists. split; [reflexivity|]. right. eexists. split; [reflexivity|].
+      intros _. exists e. split; [exact Hin|]. split; [|reflexivity].
+      cbn [with_addrs e_apath]. rewrite meta_from_apath. exact Hap.
+    - eexists. split; [reflexivity|]. right. eexists. split; [reflexivity|].
+      intros Hk. rewrite meta_from_kind, Ek in Hk. discriminate.
+    - eexists. split; [reflexivity|]. right. eexists. split; [reflexivity|].
+      intros Hk. rewrite meta_from_kind, Ek in Hk. discriminate.
+    - eexists. split; [reflexivity|]. left. reflexivity.
+  Qed.
+
+  (* one call of the basis reader, in a later state of the backup *)
+  Lemma snext_call a skip st last merr (Q : sres -> arch -> Prop) :
+    Frame b a0 a -> SV st -> (not_before st \/ last = None) ->
+    (forall sk na st' last' merr',
+        forallb skip sk = true -> SV st' -> not_before st' ->
+        match na with
+        | Some e => skip e = false /\ rem st = sk ++ e :: rem st'
+        | None => st' = SDone /\ rem st = sk
+        end -> Q (sk, na, st', last', merr') a) ->
+    wpn Q (snext keep_all skip st last merr) a.
+  Proof.
+    intros FR HV HL HQ.
+    destruct (snext_spec pre a0 b WF Hcomp skip st last merr HV HL) as (sk & na & st' & last' & merr' & E & H1 & H2 & H3 & H4).
+    destruct (evals_run_ret pre a0 _ _ E) as [tr Hr].
+    apply wpn_reads_run; [apply OkPre_read | apply snext_eo; auto|].
+    intros r Hrun.
+    destruct (low_run pre b a0 a FR _ (snext_low_SV a0 b skip keep_all st last merr HV) []) as [_ Eo].
+    rewrite Eo, Hr in Hrun. cbn [snd] in Hrun. inversion Hrun; subst r. apply HQ; assumption.
+  Qed.
+
+  Definition beforeb (p : str) (e : entry) : bool := match apath_cmp (e_apath e) p with Lt => true | _ => false end.
+
+  Lemma beforeb_true p e : beforeb p e = true <-> apath_cmp (e_apath e) p = Lt.
+  Proof. unfold beforeb. destruct (apath_cmp (e_apath e) p); split; congruence. Qed.
+
+  Definition Match (B : list entry) (it : sitem) : Prop :=
+    s_kind (si_e it) = KFile ->
+    exists e, In e B /\ e_apath e = s_apath (si_e it) /\ same_file (si_e it) e = true.
+
+  (* entries before [p] cannot be the match of an item at or after [p] *)
+  Lemma match_shift sk B1 p it :
+    (forall e, In e sk -> apath_cmp (e_apath e) p = Lt) ->
+    apath_cmp p (spath it) <> Gt ->
+    Match (sk ++ B1) it -> Match B1 it.
+  Proof.
+    intros Hsk Hle HM Hk. destruct (HM Hk) as (e & Hin & Hap & Hs). exists e. split; [|auto].
+    apply in_app_or in Hin. destruct Hin as [Hin|Hin]; [|exact Hin]. exfalso.
+    pose proof (Hsk e Hin) as Hlt. rewrite Hap in Hlt.
+    pose proof (co_lt_le_trans apath_cmp apath_order _ _ _ Hlt Hle) as Hbad.
+    apply (co_lt_irrefl apath_cmp apath_order _ Hbad).
+  Qed.
+
+  Lemma sorted_head_min (e : entry) l x :
+    asorted (map e_apath (e :: l)) -> In x l -> apath_cmp (e_apath e) (e_apath x) = Lt.
+  Proof.
+    cbn [map]. intros H Hx. inversion H as [|? ? _ F]; subst. rewrite Forall_forall in F.
+    apply F. apply in_map. exact Hx.
+  Qed.
+
+  Lemma merge_loop_wpn src : forall peek st last w a,
+    WI a w -> SV st -> (not_before st \/ (last = None /\ peek = None)) ->
+    (forall e, In e (opt_list peek ++ rem st) -> In e B0) ->
+    asorted (map e_apath (opt_list peek ++ rem st)) ->
+    asorted (map spath src) ->
+    (forall it, In it src -> Match (opt_list peek ++ rem st) it) ->
+    wpn QT' (merge_loop pre c src peek st last w) a.
+  Proof.
+    induction src as [|it src IH]; intros peek st last w a HW HV HL Hsub Hsort Hsrc Hmatch; cbn [merge_loop].
+    - eapply wpn_bind;
+        [|apply (wpn_reads_run pre OkPre OkPre_read (fun _ a' => a' = a)); [apply snext_eo; auto | reflexivity]].
+      intros [[[[skipped na] st'] last'] merr] a' ->.
+      eapply wpn_bind; [|apply flush_group_wpn; apply WI_counts; exact HW].
+      intros [ok w2] a2 _. destruct ok; [|exact I].
+      cbn [FrameP.wpn]. split; [split; [intros [] | exact I]|]. destruct (is_ok _); exact I.
+    - set (p := s_apath (si_e it)).
+      assert (Hp_le : forall it', In it' (it :: src) -> apath_cmp p (spath it') <> Gt).
+      { intros it' [<-|Hin]; [unfold p; rewrite (co_refl apath_cmp apath_order); discriminate|].
+        cbn [map] in Hsrc. inversion Hsrc as [|? ? _ F]; subst. rewrite Forall_forall in F.
+        fold p in F. rewrite (F (spath it') (in_map spath _ _ Hin)). discriminate. }
+      assert (Hsrc' : asorted (map spath src)) by (cbn [map] in Hsrc; inversion Hsrc; assumption).
+      (* the continuation after the basis has been advanced to the first entry not before p *)
+      assert (Hk : forall (skipped : list entry) na st' last' merr,
+        SV st' -> not_before st' -> (na = None -> st' = SDone) ->
+        (forall e, In e (opt_list na ++ rem st') -> In e B0) ->
+        asorted (map e_apath (opt_list na ++ rem st')) ->
+        match na with Some e => beforeb p e = false | None => True end ->
+        (forall it', In it' (it :: src) -> Match (opt_list na ++ rem st') it') ->
+        wpn QT'
+          (let w0 := upd_counts w (w_errors w) merr (w_deleted w + N.of_nat (length skipped)) in
+           let '(basis, na') :=
+             match na with
+             | Some e => match apath_cmp (e_apath e) (s_apath (si_e it)) with
+                         | Eq => (Some e, None) | _ => (None, na) end
+             | None => (None, None)
+             end in
+           bind (copy_entry pre c w0 basis it) (fun rw =>
+             let '(ok, w1) := rw in
+             let w2 := if ok then w1 else upd_counts w1 (w_errors w1 + 1) (w_merr w1 + 1) (w_deleted w1) in
+             if ok && (c_meph c <=? N.of_nat (length (w_entries w2)) + N.of_nat (length (w_queue w2))) then
+               bind (flush_group pre w2) (fun rw2 =>
+                 let '(ok2, w3) := rw2 in
+                 if ok2 then merge_loop pre c src na' st' last' w3 else Ret (fail w3))
+             else merge_loop pre c src na' st' last' w2)) a).
+      { intros skipped na st' last' merr HV' HN' Hnone Hsub' Hsort' Hnb Hm'. cbv zeta.
+        set (w0 := upd_counts w (w_errors w) merr (w_deleted w + N.of_nat (length skipped))).
+        assert (HW0 : WI a w0) by (apply WI_counts; exact HW).
+        (* a file item finds its basis entry at the head *)
+        assert (Hfile : s_kind (si_e it) = KFile ->
+                  exists e, na = Some e /\ apath_cmp (e_apath e) p = Eq /\ same_file (si_e it) e = true /\ In e B0).
+        { intros Hk'. destruct (Hm' it (or_introl eq_refl) Hk') as (ep & Hin & Hap & Hs).
+          destruct na as [e|]; [|rewrite (Hnone eq_refl) in Hin; destruct Hin].
+          exists e. split; [reflexivity|]. cbn [opt_list app] in Hin, Hsort'. destruct Hin as [<-|Hin].
+          - split; [fold p in Hap; rewrite Hap; apply (co_refl apath_cmp apath_order)|].
+            split; [exact Hs | apply Hsub'; left; reflexivity].
+          - exfalso. pose proof (sorted_head_min e _ ep Hsort' Hin) as Hlt. fold p in Hap. rewrite Hap in Hlt.
+            apply beforeb_true in Hlt. congruence. }
+        (* the next state of the basis and what remains for the later items *)
+        assert (Hnext : forall basis na',
+          (basis, na') = match na with
+                         | Some e => match apath_cmp (e_apath e) p with Eq => (Some e, None) | _ => (None, na) end
+                         | None => (None, None)
+                         end ->
+          (s_kind (si_e it) = KFile ->
+             exists e, basis = Some e /\ same_file (si_e it) e = true /\ blocks_present w0 e = true
+                       /\ In e B0 /\ e_apath e = s_apath (si_e it))
+          /\ (forall e, In e (opt_list na' ++ rem st') -> In e B0)
+          /\ asorted (map e_apath (opt_list na' ++ rem st'))
+          /\ (forall it', In it' src -> Match (opt_list na' ++ rem st') it')).
+        { intros basis na' Eb.
+          assert (Hlater : forall it', In it' src -> apath_cmp p (spath it') = Lt).
+          { intros it' Hin. cbn [map] in Hsrc. inversion Hsrc as [|? ? _ F]; subst. rewrite Forall_forall in F.
+            apply (F (spath it') (in_map spath _ _ Hin)). }
+          destruct na as [e|].
+          - destruct (apath_cmp (e_apath e) p) eqn:Ec; inversion Eb; subst basis na'.
+            + (* the entry at p is consumed *)
+              apply (co_eq apath_cmp apath_order) in Ec.
+              split; [|split; [|split]].
+              * intros Hk'. destruct (Hfile Hk') as (e' & E' & _ & Hs & Hin). inversion E'; subst e'.
+                exists e. repeat split; auto. apply (proj2 (proj2 (proj2 (proj2 (proj2 HW0))))). exact Hin.
+              * intros x Hx. apply Hsub'. right. exact Hx.
+              * cbn [opt_list app map] in Hsort' |- *. inversion Hsort'; assumption.
+              * intros it' Hin' Hk'. destruct (Hm' it' (or_intror Hin') Hk') as (x & Hx & Hap & Hs).
+                exists x. split; [|auto]. cbn [opt_list app] in Hx. destruct Hx as [<-|Hx]; [|exact Hx].
+                exfalso. pose proof (Hlater it' Hin') as Hlt. cbv beta in Hlt, Hap. rewrite <- Hap, Ec in Hlt.
+                apply (co_lt_irrefl apath_cmp apath_order _ Hlt).
+            + cbn [beforeb] in Hnb. unfold beforeb in Hnb. rewrite Ec in Hnb. discriminate.
+            + split; [|split; [|split]]; auto.
+              * intros Hk'. destruct (Hfile Hk') as (e' & E' & Ec' & _). inversion E'; subst e'. congruence.
+              * intros it' Hin'. apply Hm'. right. exact Hin'.
+          - inversion Eb; subst basis na'. split; [|split; [|split]]; auto.
+            + intros Hk'. destruct (Hfile Hk') as (e' & E' & _). discriminate E'.
+            + intros it' Hin'. apply Hm'. right. exact Hin'. }
+        fold p.
+        destruct (match na with
+                  | Some e => match apath_cmp (e_apath e) p with Eq => (Some e, None) | _ => (None, na) end
+                  | None => (None, None)
+                  end) as [basis na'] eqn:Eb.
+        destruct (Hnext basis na' eq_refl) as (Hf & Hsub2 & Hsort2 & Hm2).
+        destruct (copy_entry_ret w0 basis it Hf) as (w1 & Ecopy & Hw1).
+        rewrite Ecopy. cbn [bind andb].
+        assert (HW1 : WI a w1) by (destruct Hw1 as [->|(e' & -> & He')]; [exact HW0 | apply WI_push; assumption]).
+        destruct (c_meph c <=? N.of_nat (length (w_entries w1)) + N.of_nat (length (w_queue w1))).
+        - eapply wpn_bind; [|apply flush_group_wpn; exact HW1].
+          intros [ok2 w3] a3 HW3. unfold WIQ in HW3. cbn [snd] in HW3.
+          destruct ok2; [|exact I]. apply IH; auto.
+        - apply IH; auto. }
+      (* advancing the basis *)
+      assert (Hadv : forall (e0s : list entry) lst,
+        (forall e, In e e0s -> beforeb p e = true) ->
+        (forall e, In e (e0s ++ rem st) -> In e B0) ->
+        asorted (map e_apath (e0s ++ rem st)) ->
+        (forall it', In it' (it :: src) -> Match (e0s ++ rem st) it') ->
+        (not_before st \/ lst = None) ->
+        wpn QT'
+          (bind (snext keep_all (beforeb p) st lst (w_merr w)) (fun r =>
+             let '(skipped, na, st', last', merr) := r in
+             (fun (skipped : list entry) na st' last' merr =>
+               let w0 := upd_counts w (w_errors w) merr (w_deleted w + N.of_nat (length skipped)) in
+               let '(basis, na') :=
+                 match na with
+                 | Some e => match apath_cmp (e_apath e) (s_apath (si_e it)) with
+                             | Eq => (Some e, None) | _ => (None, na) end
+                 | None => (None, None)
+                 end in
+               bind (copy_entry pre c w0 basis it) (fun rw =>
+                 let '(ok, w1) := rw in
+                 let w2 := if ok then w1 else upd_counts w1 (w_errors w1 + 1) (w_merr w1 + 1) (w_deleted w1) in
+                 if ok && (c_meph c <=? N.of_nat (length (w_entries w2)) + N.of_nat (length (w_queue w2))) then
+                   bind (flush_group pre w2) (fun rw2 =>
+                     let '(ok2, w3) := rw2 in
+                     if ok2 then merge_loop pre c src na' st' last' w3 else Ret (fail w3))
+                 else merge_loop pre c src na' st' last' w2)) (e0s ++ skipped) na st' last' merr)) a).
+      { intros e0s lst He0 Hsub0 Hsort0 Hm0 HL0.
+        eapply wpn_bind; [|apply (snext_call a (beforeb p) st lst (w_merr w)
+                                   (fun r a' => a' = a /\
+                                      let '(sk, na, st', _, _) := r in
+                                      forallb (beforeb p) sk = true /\ SV st' /\ not_before st' /\
+                                      match na with
+                                      | Some e => beforeb p e = false /\ rem st = sk ++ e :: rem st'
+                                      | None => st' = SDone /\ rem st = sk
+                                      end) (proj1 HW) HV HL0); intros; auto].
+        intros [[[[sk na] st'] last'] merr] a' [-> (Hsk & HV' & HN' & Hrem)].
+        assert (Hrem' : rem st = sk ++ opt_list na ++ rem st' /\ (na = None -> st' = SDone)
+                        /\ match na with Some e => beforeb p e = false | None => True end).
+        { destruct na as [e|]; [destruct Hrem as [Hb ->]; cbn [opt_list app]; repeat split; auto; discriminate|].
+          destruct Hrem as [-> ->]. cbn [opt_list rem app]. rewrite app_nil_r. auto. }
+        destruct Hrem' as (Er & Hnone & Hnb).
+        assert (Hsk' : forall e, In e (e0s ++ sk) -> apath_cmp (e_apath e) p = Lt).
+        { intros e Hin. apply beforeb_true. apply in_app_or in Hin. destruct Hin as [Hin|Hin]; [apply He0; exact Hin|].
+          rewrite forallb_forall in Hsk. apply Hsk. exact Hin. }
+        rewrite Er, app_assoc in Hsub0, Hsort0, Hm0.
+        apply Hk; auto.
+        - intros e Hin. apply Hsub0. apply in_or_app. right. exact Hin.
+        - rewrite map_app in Hsort0. apply SS_app_r in Hsort0. exact Hsort0.
+        - intros it' Hin'. eapply match_shift; [exact Hsk' | apply Hp_le; exact Hin' | apply Hm0; exact Hin']. }
+      destruct peek as [e0|].
+      + assert (HNB : not_before st) by (destruct HL as [H|[_ H]]; [exact H | discriminate H]).
+        fold p. fold (beforeb p). fold (beforeb p e0). destruct (beforeb p e0) eqn:Eb0.
+        * apply (Hadv [e0] last);
+            [intros e [<-|[]]; exact Eb0 | exact Hsub | exact Hsort
+            | intros it' Hin'; apply Hmatch; exact Hin' | left; exact HNB].
+        * apply (Hk [] (Some e0) st last (w_merr w));
+            [exact HV | exact HNB | discriminate | exact Hsub | exact Hsort | exact Eb0
+            | intros it' Hin'; apply Hmatch; exact Hin'].
+      + fold p. fold (beforeb p).
+        apply (Hadv [] last);
+          [intros e [] | exact Hsub | exact Hsort | intros it' Hin'; apply Hmatch; exact Hin'
+          | destruct HL as [HL|[HL _]]; auto].
+  Qed.
+
+  (* ---- the whole backup ---- *)
+  Hypothesis HI : AInv a0.
+  Hypothesis BD : BlocksInDirs pre a0.
+  Hypothesis Hnewest : has_dir a0 (DBand b) = true /\ forall b', has_dir a0 (DBand b') = true -> b' <= b.
+  Hypothesis Bsorted : asorted (map e_apath B0).
+
+  Lemma wpn_read {R} (Q : R -> arch -> Prop) o (k : reply -> prog R) a :
+    reads_only o -> wpn Q (k (snd (exec_ok pre a o))) a -> wpn Q (Do o k) a.
+  Proof.
+    intros Ho H. cbn [FrameP.wpn]. split; [apply OkPre_read; exact Ho|].
+    rewrite (exec_ok_read_same pre a o Ho). exact H.
+  Qed.
+
+  Lemma list_blocks_wpn subs : forall acc failed k a,
+    wpn QT' (k None) a ->
+    (failed = false -> forall ex,
+       (forall c', block_ok a c' -> In c' acc \/ In (pre c') subs -> In c' ex) -> wpn QT' (k (Some ex)) a) ->
+    wpn QT' (list_blocks subs acc failed k) a.
+  Proof.
+    induction subs as [|s subs IH]; intros acc failed k a HN HS; cbn [list_blocks].
+    - destruct failed; [exact HN|]. apply HS; [reflexivity|]. intros c' _ [H|[]]. exact H.
+    - apply wpn_read; [exact I|].
+      destruct (snd (exec_ok pre a (OpList (DBlockSub s)))) as [| | |ds fs|] eqn:Er;
+        try (apply IH; [exact HN | discriminate]).
+      apply IH; [exact HN|]. intros Hf ex Hex. apply HS; [exact Hf|].
+      intros c' Hc [H|[E|H]]; [| subst s |]; apply Hex; auto.
+      + left. apply in_or_app. left. exact H.
+      + left. apply in_or_app. right.
+        pose proof (exec_read_reply pre a (OpList (DBlockSub (pre c'))) NoFault I) as Hr.
+        cbn [exec] in Hr. rewrite Er in Hr. cbn [reply_ok] in Hr. subst fs. apply block_ok_listed. exact Hc.
+  Qed.
+
+  Lemma fold_max_le l : forall x m, x <= m -> (forall y, In y l -> y <= m) -> fold_left N.max l x <= m.
+  Proof.
+    induction l as [|z l IH]; intros x m Hx Hl; cbn [fold_left]; [exact Hx|].
+    apply IH; [pose proof (Hl z (or_introl eq_refl)); lia | intros y Hy; apply Hl; right; exact Hy].
+  Qed.
+
+  Lemma max_id_newest l m : In m l -> (forall y, In y l -> y <= m) -> max_id l = Some m.
+  Proof.
+    intros Hin Hle. destruct (max_id_ge l m Hin) as [m' [E Hm']]. rewrite E. f_equal.
+    destruct l as [|x l]; [destruct Hin|]. cbn [max_id] in E. inversion E; subst m'.
+    pose proof (fold_max_le l x m (Hle x (or_introl eq_refl)) (fun y Hy => Hle y (or_intror Hy))). lia.
+  Qed.
+
+  Lemma band_entries_ok e : In e B0 -> entry_ok a0 e.
+  Proof.
+    unfold band_entries, hunks_entries. intros Hin. apply in_concat in Hin. destruct Hin as [l [Hl He]].
+    apply in_map_iff in Hl. destruct Hl as [o [<- Ho]]. apply in_map_iff in Ho. destruct Ho as [h [<- _]].
+    unfold hunk_content in He. destruct (get a0 (PHunk b h)) as [[[|hv|t|es|c']| |]|] eqn:G; try destruct He.
+    pose proof (proj1 HI _ _ _ G) as Hes. rewrite Forall_forall in Hes. apply Hes. exact He.
+  Qed.
+
+  Theorem backup_unchanged_wpn src :
+    asorted (map spath src) -> (forall it, In it src -> Match B0 it) ->
+    wpn QT' (backup_prog pre c src) a0.
+  Proof.
+    intros Hsrc Hmatch. destruct Hnewest as [Hbd Hmax].
+    unfold backup_prog, open_archive.
+    apply wpn_read; [exact I|].
+    destruct (snd (exec_ok pre a0 (OpRead PHeader))) as [| |[[| | | |]| |]| |]; try exact I.
+    apply wpn_read; [exact I|].
+    destruct (snd (exec_ok pre a0 (OpMeta PLock))) as [|[| | |]| | |]; try exact I.
+    apply wpn_read; [exact I|]. rewrite reply_list.
+    destruct (has_dir a0 DRoot) eqn:Hroot; [|exact I].
+    apply wpn_read; [exact I|]. rewrite reply_list, Hroot.
+    assert (Hmaxid : max_id (band_ids (children_dirs a0 DRoot)) = Some b).
+    { apply max_id_newest; [apply root_band_ids; exact Hbd|]. intros y Hy. apply Hmax. apply root_band_ids. exact Hy. }
+    rewrite Hmaxid. cbv zeta. set (id := b + 1).
+    assert (Hid : b < id) by (unfold id; lia).
+    assert (HJ0 : PJ a0 a0) by (split; [auto | apply Old_refl]).
+    assert (FR0 : Frame b a0 a0) by apply Frame_refl.
+    revert HJ0 FR0. generalize a0 at 2 4 5 as a. intros a HJ FR.
+    cbn [FrameP.wpn]. split; [split; [intros []|exact I]|].
+    pose proof (PJ_step pre a0 a (OpMkdir (DBand id)) NoFault I (fun x => x) HJ) as HJ1.
+    pose proof (exec_ok_high_frame a (OpMkdir (DBand id)) Hid FR) as FR1.
+    cbn [exec] in HJ1. set (a1 := fst (exec_ok pre a (OpMkdir (DBand id)))) in *.
+    destruct (is_ok _); [|exact I].
+    cbn [FrameP.wpn]. split; [split; [intros []|exact I]|].
+    pose proof (PJ_step pre a0 a1 (OpMkdir (DIndex id)) NoFault I (fun x => x) HJ1) as HJ2.
+    pose proof (exec_ok_high_frame a1 (OpMkdir (DIndex id)) Hid FR1) as FR2.
+    cbn [exec] in HJ2. set (a2 := fst (exec_ok pre a1 (OpMkdir (DIndex id)))) in *.
+    destruct (is_ok _); [|exact I].
+    cbn [FrameP.wpn]. split; [split; [intros []|exact I]|].
+    pose proof (PJ_step pre a0 a2 (OpWrite (PHead id) (PlHead HvOk) CreateNew) NoFault I (fun x => x) HJ2) as HJ3.
+    pose proof (exec_ok_high_frame a2 (OpWrite (PHead id) (PlHead HvOk) CreateNew) Hid FR2) as FR3.
+    cbn [exec] in HJ3. set (a3 := fst (exec_ok pre a2 (OpWrite (PHead id) (PlHead HvOk) CreateNew))) in *.
+    destruct (is_ok _); [|exact I].
+    apply wpn_read; [exact I|].
+    destruct (snd (exec_ok pre a3 (OpList DRoot))) as [| | |ds5 fs5|]; try exact I.
+    destruct (existsb (fun p => fpath_eqb (fst p) PLock) fs5); [exact I|].
+    apply wpn_read; [exact I|]. rewrite reply_list.
+    destruct (has_dir a3 DBlocks) eqn:Hbl; [|exact I].
+    apply list_blocks_wpn; [exact I|]. intros _ ex Hex.
+    destruct HJ3 as [HB HO].
+    apply merge_loop_wpn.
+    - unfold WI. cbn [w_band w_queue w_fin w_entries]. split; [exact FR3|]. repeat split; auto.
+      intros e He. unfold blocks_present. apply forallb_forall. intros ad Had. cbn [w_exists].
+      apply In_mem_bytes.
+      pose proof (band_entries_ok e He) as Hok. unfold entry_ok in Hok. rewrite Forall_forall in Hok.
+      destruct (Hok ad Had) as [Hblk _].
+      assert (Hblk3 : block_ok a3 (a_hash ad)) by (eapply block_ok_mono; eassumption).
+      apply Hex; [exact Hblk3|]. right.
+      assert (Hd : has_dir a3 (DBlockSub (pre (a_hash ad))) = true).
+      { apply (proj1 HO). apply has_dir_In. apply BD. unfold block_ok in Hblk. rewrite Hblk. discriminate. }
+      unfold block_subdirs. apply in_isort_N. apply in_flat_map.
+      exists (DBlockSub (pre (a_hash ad))). split; [|left; reflexivity].
+      unfold children_dirs. apply filter_In. split; [apply has_dir_In; exact Hd | reflexivity].
+    - cbn [FrameP.SV]. reflexivity.
+    - right. split; reflexivity.
+    - intros e He. exact He.
+    - exact Bsorted.
+    - exact Hsrc.
+    - intros it Hin. apply Hmatch. exact Hin.
+  Qed.
+
+  (** C14, unchanged tree.  Without faults, when the newest band [b] is complete, its index
+      is sorted, the archive is well-formed and has referential integrity, and every FILE of
+      the (sorted) source is unchanged w.r.t. the entry of [b] with the same apath, the
+      backup writes NO block at all, and every file entry of every index hunk it writes
+      carries the addresses of the basis entry with the same apath. *)
+  Theorem unchanged_tree_no_block_writes src :
+    asorted (map spath src) -> (forall it, In it src -> Match B0 it) ->
+    Forall (fun x => okop (fst x)) (fst (fst (run pre (backup_prog pre c src) a0 []))).
+  Proof.
+    intros Hsrc Hmatch. apply Forall_forall. intros [o rep] Hin.
+    destruct (In_nth_error _ _ Hin) as [i Hi].
+    destruct (wpn_sound pre OkPre QT' _ a0 i o rep (backup_unchanged_wpn src Hsrc Hmatch) Hi) as [ab [_ Hp]].
+    exact Hp.
+  Qed.
+End Unchanged.
+
+(* ------------------------------------------------------------------------- *)
 (** * 9. Boolean checkers for the hypotheses, and examples (non-vacuity)      *)
 (* ------------------------------------------------------------------------- *)
 
@@ -1970,6 +2678,28 @@ Lemma blocksindirs_b_sound pre a : blocksindirs_b pre a = true -> BlocksInDirs p
 Proof.
   unfold blocksindirs_b. rewrite forallb_forall. intros H c G.
   destruct (get_In_files a _ G) as [x Hin]. exact (H _ Hin).
+Qed.
+
+Definition newest_b (a : arch) (b : N) : bool :=
+  has_dir a (DBand b) && forallb (fun d => match d with DBand b' => b' <=? b | _ => true end) (dirs a).
+Lemma newest_b_sound a b :
+  newest_b a b = true -> has_dir a (DBand b) = true /\ forall b', has_dir a (DBand b') = true -> b' <= b.
+Proof.
+  unfold newest_b. rewrite andb_true_iff, forallb_forall. intros [H1 H2]. split; [exact H1|].
+  intros b' Hb'. apply has_dir_In in Hb'. apply N.leb_le. exact (H2 _ Hb').
+Qed.
+
+Definition match_b (B : list entry) (it : sitem) : bool :=
+  match s_kind (si_e it) with
+  | KFile => existsb (fun e => str_eqb (e_apath e) (s_apath (si_e it)) && same_file (si_e it) e) B
+  | _ => true
+  end.
+Lemma match_b_sound a0 b src :
+  forallb (match_b (band_entries a0 b)) src = true -> forall it, In it src -> Match (band_entries a0 b) it.
+Proof.
+  rewrite forallb_forall. intros H it Hin Hk. specialize (H it Hin). unfold match_b in H. rewrite Hk in H.
+  apply existsb_exists in H. destruct H as [e [He H]]. apply andb_true_iff in H. destruct H as [H1 H2].
+  apply str_eqb_eq in H1. exists e. auto.
 Qed.
 
 Module FrameExamples.
@@ -2112,6 +2842,35 @@ Module FrameExamples.
     exists ex_pre, ex_cfg, (ex_src 6), ex_stray, [], 10%nat, [1;2], (PlBlock [1;2]), CreateNew, (RErr EAlreadyExists).
     eexists. vm_compute. repeat split; reflexivity.
   Qed.
+
+  (* C14, unchanged tree: backing up the very source that produced ex_a2 again writes no
+     block; the hypotheses hold of ex_a2 / band 0 / that source *)
+  Example ex_unchanged_hyps :
+    newest_b ex_a2 0 = true
+    /\ adj_sortedb (map e_apath (band_entries ex_a2 0)) = true
+    /\ adj_sortedb (map (fun it => s_apath (si_e it)) (ex_src 6)) = true
+    /\ forallb (match_b (band_entries ex_a2 0)) (ex_src 6) = true
+    /\ forallb (match_b (band_entries ex_a2 0)) (ex_src 7) = false.
+  Proof. vm_compute. repeat split; reflexivity. Qed.
+
+  Example ex_unchanged_thm :
+    Forall (fun x => okop ex_a2 0 (fst x)) (trace (backup 6) ex_a2 []).
+  Proof.
+    apply (unchanged_tree_no_block_writes ex_pre ex_cfg ex_a2 0 ex_wfidx_a2 (proj1 ex_complete)).
+    - apply ainv_b_sound. vm_compute. reflexivity.
+    - apply blocksindirs_b_sound. vm_compute. reflexivity.
+    - apply newest_b_sound. vm_compute. reflexivity.
+    - apply adj_sortedb_sound. vm_compute. reflexivity.
+    - apply adj_sortedb_sound. vm_compute. reflexivity.
+    - apply match_b_sound. vm_compute. reflexivity.
+  Qed.
+
+  Example ex_unchanged_computed :
+    filter (fun x => match fst x with OpWrite (PBlock _) _ _ => true | _ => false end) (trace (backup 6) ex_a2 []) = []
+    /\ length (filter (fun x => match fst x with OpWrite (PHunk _ _) _ _ => true | _ => false end) (trace (backup 6) ex_a2 [])) = 2%nat
+    /\ map e_addrs (band_entries (final (backup 6) ex_a2 []) 1) = map e_addrs (band_entries ex_a2 0)
+    /\ length (flat_map e_addrs (band_entries ex_a2 0)) = 3%nat.
+  Proof. vm_compute. repeat split; reflexivity. Qed.
 End FrameExamples.
 
 Print Assumptions snext_refines.
@@ -2133,3 +2892,5 @@ Print Assumptions complete_band_restore_stable.
 Print Assumptions latest_closed_is_newest.
 Print Assumptions backup_never_rewrites_present.
 Print Assumptions FrameExamples.never_rewrites_without_dirs_refuted.
+Print Assumptions snext_spec.
+Print Assumptions unchanged_tree_no_block_writes.
